@@ -15,8 +15,10 @@ import (
 	"fmt"
 	"math/rand"
 	"os"
+	"os/exec"
 	"path/filepath"
 	"runtime"
+	"runtime/debug"
 	"sort"
 	"strings"
 	"sync"
@@ -184,7 +186,7 @@ func innerScan(t *btree.BTree, a act, hook func(btree.Item)) [][]int {
 		if a.N > 0 && passes(x.(item).k, a.Fm, a.Fr) {
 			out = append(out, pair(x))
 		}
-		return len(out) < a.N
+		return len(out) < a.N && calls < runaway
 	}
 	p, q := item{a.P, 0}, item{a.Q, 0}
 	switch a.Fn {
@@ -355,9 +357,13 @@ func (s *sut) safeDo(a act) (r interface{}, panicked bool) {
 // back is an observation (`stuck` event), not a hang of the harness.
 var progress, inCall int64
 
+// runaway: no tree of this harness holds that many items; an iteration that delivers more is
+// going round in circles and is cut (what was collected is logged and rejected).
+const runaway = 20000
+
 func contents(t *btree.BTree) [][]int {
-	out := make([][]int, 0, t.Len())
-	t.Ascend(func(x btree.Item) bool { out = append(out, pair(x)); return true })
+	out := make([][]int, 0, 64)
+	t.Ascend(func(x btree.Item) bool { out = append(out, pair(x)); return len(out) < runaway })
 	return out
 }
 
@@ -1455,10 +1461,16 @@ func runConc(w *tr.W, rng *rand.Rand, threads, opsPer, nkeys int) bool {
 func runRaces(w *tr.W, rng *rand.Rand, rounds, keep int, budget time.Duration) (int, int) {
 	t0 := time.Now()
 	writers := []string{"ins", "upd", "upsert", "del"}
-	every := []string{"ins", "upd", "upsert", "del", "get", "AscendGte", "AscendGt", "DescendLte", "DescendLt"}
+	every := []string{"ins", "upd", "upsert", "del", "get", "AscendGte", "AscendGt", "DescendLte", "DescendLt",
+		"ins", "upd", "upsert", "del"} // writer against writer twice as often as writer against reader
 	kept, ran := 0, 0
 	const hot = 5
-	for r := 0; r < rounds && kept < keep && time.Since(t0) < budget; r++ { // the budget only bounds the run on a loaded machine
+	for r := 0; r < rounds && kept < keep; r++ {
+		// the budget only bounds the run on a loaded machine; a fifth of the rounds asked for is
+		// collected even then (up to three times the budget)
+		if el := time.Since(t0); (el > budget && kept >= keep/5) || el > 3*budget {
+			break
+		}
 		ran++
 		s := newSut("wrap", 2, -1)
 		ver := 0
@@ -1622,6 +1634,119 @@ func runRaces(w *tr.W, rng *rand.Rand, rounds, keep int, budget time.Duration) (
 	return ran, kept
 }
 
+// ------------------------------------------------------------------ supervisor
+
+// A Go runtime fatal error (stack overflow in a cyclic node structure, "concurrent map writes",
+// unlock of an unlocked mutex ...) cannot be recovered inside the process.  The harness therefore
+// runs itself as a child; when the child dies inside neptune's code, the supervisor appends a
+// `crash` event to the trace that was being written (events are flushed one by one) - the spec
+// has no arm for it - and ends normally.  A failure of the harness itself stays exit 2.
+type capWriter struct {
+	buf []byte
+	max int
+}
+
+func (c *capWriter) Write(p []byte) (int, error) {
+	if room := c.max - len(c.buf); room > 0 {
+		if len(p) < room {
+			room = len(p)
+		}
+		c.buf = append(c.buf, p[:room]...)
+	}
+	return len(p), nil
+}
+
+// crashedInNeptune: the first function frame of the crashing goroutine that is neither the
+// runtime's nor a standard package's decides: neptune -> the reason, the harness -> "".
+func crashedInNeptune(out string) string {
+	lines := strings.Split(out, "\n")
+	reason, i := "", 0
+	for ; i < len(lines); i++ {
+		if strings.HasPrefix(lines[i], "fatal error: ") || strings.HasPrefix(lines[i], "panic: ") {
+			reason = lines[i]
+			break
+		}
+	}
+	if reason == "" {
+		return ""
+	}
+	for ; i < len(lines); i++ { // header of the first goroutine after the reason = the crashing one
+		if strings.HasPrefix(lines[i], "goroutine ") && strings.HasSuffix(strings.TrimSpace(lines[i]), "]:") {
+			break
+		}
+	}
+	for i++; i < len(lines); i++ {
+		l := lines[i]
+		if strings.TrimSpace(l) == "" {
+			break
+		}
+		if strings.HasPrefix(l, "\t") || strings.HasPrefix(l, " ") {
+			continue
+		}
+		if strings.HasPrefix(l, "github.com/pinealctx/neptune") {
+			return reason + " in " + strings.SplitN(l, "(", 2)[0]
+		}
+		if strings.HasPrefix(l, "main.") || strings.HasPrefix(l, "verif/harness") {
+			// a callback of the harness on top of a runaway recursion of the library (iterate over a
+			// cyclic node structure) is still the library's overflow
+			if strings.Contains(reason, "stack overflow") {
+				for j := i + 1; j < len(lines) && j < i+6; j++ {
+					if strings.HasPrefix(lines[j], "github.com/pinealctx/neptune") {
+						return reason + " in " + strings.SplitN(lines[j], "(", 2)[0]
+					}
+				}
+			}
+			return ""
+		}
+	}
+	return ""
+}
+
+func supervise(outPath, concPath, statPath string) {
+	cmd := exec.Command(os.Args[0], os.Args[1:]...)
+	cmd.Env = append(os.Environ(), "C03_CHILD=1")
+	cmd.Stdout = os.Stdout
+	errw := &capWriter{max: 1 << 20}
+	cmd.Stderr = errw
+	err := cmd.Run()
+	if err == nil {
+		os.Exit(0)
+	}
+	out := string(errw.buf)
+	why := ""
+	if !strings.Contains(out, "HARNESS-ERROR") {
+		why = crashedInNeptune(out)
+	}
+	if why == "" {
+		os.Stderr.Write(errw.buf)
+		code := 2
+		if ee, ok := err.(*exec.ExitError); ok && ee.ExitCode() > 0 {
+			code = ee.ExitCode()
+		}
+		os.Exit(code)
+	}
+	target := outPath
+	if fi, e := os.Stat(concPath); e == nil && fi.Size() > 0 {
+		target = concPath
+	}
+	f, e := os.OpenFile(target, os.O_APPEND|os.O_WRONLY|os.O_CREATE, 0o644)
+	if e != nil {
+		tr.Fatal("%v", e)
+	}
+	bs, _ := json.Marshal(tr.E{"ev": "crash", "msg": why})
+	f.Write(append(bs, '\n'))
+	f.Close()
+	if _, e := os.Stat(concPath); e != nil {
+		os.WriteFile(concPath, nil, 0o644)
+	}
+	if statPath != "" {
+		bs, _ := json.Marshal(map[string]interface{}{"Crashed": why})
+		os.WriteFile(statPath, bs, 0o644)
+	}
+	fmt.Printf("the harness process died inside neptune: %s; crash event appended to %s\n", why, target)
+	os.Exit(0)
+}
+
 // ------------------------------------------------------------------ main
 
 func main() {
@@ -1640,6 +1765,10 @@ func main() {
 	sweep := flag.Int("sweep", 4, "probability (percent) of a scan sweep after a write that changed the node structure (always one per handle at the end of a trace)")
 	statf := flag.String("stats", "", "write statistics (json) here")
 	flag.Parse()
+	if os.Getenv("C03_CHILD") == "" {
+		supervise(*out, *conc, *statf)
+	}
+	debug.SetMaxStack(64 << 20) // a runaway recursion in a corrupted tree dies early, not after 1 GB
 	rng := rand.New(rand.NewSource(*seed))
 
 	w := tr.Create(*out)
